@@ -336,6 +336,40 @@ func runC01(c *harness.Ctx) {
 	if directedT != nil {
 		cs.plan, ss.plan = directedWrites(c, "cw", directedT), directedWrites(c, "sw", directedT)
 	}
+	if aligned := func() bool {
+		for _, v := range directedT {
+			if v != 0 && v != 1448 {
+				return false
+			}
+		}
+		return directedT != nil
+	}(); aligned && iat == 0 && t.Draw("fill", 2) == 1 {
+		// Every burst under this table is a whole number of 1448-byte segments.
+		// One or two writes of 21406..22810 bytes give bursts of exactly 16
+		// segments - 23168 bytes, the most an obfs4 endpoint takes off the network
+		// in one read - delivered in one piece after a pause and followed by
+		// nothing: the read that takes them is filled to the last byte
+		side, pipe := cs, link.AB
+		if t.Draw("fill.side", 3) > 0 {
+			side, pipe = ss, link.BA
+		}
+		for i, n := 0, 1+t.Draw("fill.n", 2); i < n; i++ {
+			pause := 0
+			if i == 0 {
+				pause = 1000
+			}
+			side.plan = append(side.plan, writePlan{Size: 21406 + t.Draw("fill.sz", 1405), PauseMs: pause})
+		}
+		pipe.Policy, pipe.MaxRead = simnet.ChunkAll, 0
+		c.Feature("bursts-of-exactly-16-segments")
+	}
+	for _, cn := range []*simnet.Conn{link.A, link.B} {
+		cn.OnRead = func(p []byte) {
+			if len(p) == 23168 {
+				c.Feature("network-read-filled-to-the-last-byte")
+			}
+		}
+	}
 	if t.Draw("many-small", 8) == 7 {
 		// dozens of small writes back to back, delivered to a reader that gets
 		// round to them late: many short frames (data and padding) in one read,
